@@ -34,3 +34,23 @@ fn c09_key_and_nonce_injective() {
     kani::cover!(same, "same_key_nonce_reachable");
     kani::cover!(!same, "different_key_nonce_reachable");
 }
+
+include!("/verif/harness/segs_garble.rs");
+
+/// C09 - fixed-size AEAD rows: the plaintext handed to ChaCha20-Poly1305 by encrypt() (the
+/// statements between key derivation and the AEAD call and the plaintext argument expression,
+/// cut from the source) has the same length for any two rows of one shape and equals
+/// 1 + 8 + 16 n + 16; the ciphertext is that plus the 16-byte tag (AEAD definition).
+#[kani::proof]
+#[kani::unwind(20)]
+#[kani::stub(std::fmt::format, no_format)]
+fn c09_encrypt_plaintext_len_value_independent() {
+    let a = seg_encrypt_plaintext_len((kani::any(), vec![Mac(kani::any()), Mac(kani::any())], Label(kani::any())));
+    let b = seg_encrypt_plaintext_len((kani::any(), vec![Mac(kani::any()), Mac(kani::any())], Label(kani::any())));
+    let la = match &a { Ok(l) => Some(*l), Err(_) => None };
+    let lb = match &b { Ok(l) => Some(*l), Err(_) => None };
+    std::mem::forget((a, b));
+    assert!(la.is_some() && la == lb, "C09:garbled-row:plaintext-length-independent-of-values");
+    assert!(la == Some(1 + 8 + 32 + 16), "C09:garbled-row:plaintext-length==1+8+16n+16");
+    kani::cover!(la.is_some(), "encrypt_plaintext_reachable");
+}
